@@ -217,7 +217,7 @@ def check_C13(chk, tier, seed):
                        "timeouts: 2.5 s to connect, 2.5 s for the answer, on loopback"]
 
 
-FAULTS = ["announce-leave", "malformed", "oversized", "zero-length", "stall-midframe", "stall-setup", "garbage-setup", "reset", "reset-midframe", "handler-panic", "handler-panic-sync", "vanish-before-answer", "deep-nesting"]
+FAULTS = ["announce-leave", "malformed", "oversized", "zero-length", "stall-midframe", "stall-setup", "garbage-setup", "reset", "reset-midframe", "handler-panic", "handler-panic-sync", "handler-panic-fmt", "handler-panic-unwrap", "vanish-before-answer", "deep-nesting"]
 
 
 def check_C10(chk, tier, seed):
@@ -242,6 +242,10 @@ def check_C10(chk, tier, seed):
     for tls in (0, 1):
         cases.append(f"NET {tls} 2 3 {hx(rng.below(1 << 32))} 12 " + " ".join(["handler-panic"] * 12))
     cases.append(f"NET 0 2 3 {hx(rng.below(1 << 32))} 20 " + " ".join(["handler-panic-sync", "handler-panic"] * 10))
+    # many peers in a row each sending a frame nested too deep (and frames refused in the middle of a group): whatever a worker
+    # thread keeps while decoding must be given back when a decode fails - afterwards requests carrying Grouped AVPs are served
+    for tls in (0, 1):
+        cases.append(f"NET {tls} 3 4 {hx(rng.below(1 << 32))} 16 " + " ".join(["deep-nesting", "malformed"] * 8))
     n = 12 if tier == "quick" else 400
     for k in range(n):
         r = rng.fork(f"n{k}")
@@ -263,7 +267,7 @@ def check_C10(chk, tier, seed):
         if i % max(1, len(cases) // 6) == 0:
             chk.sample(dict(case=c, impl=im, P=ok))
     chk.rule = ("every fault kind (malformed frame, oversized frame, zero length, stall in mid-frame, stall before connection setup incl. a TLS handshake never started, "
-                "garbage at setup, reset, reset in mid-frame, handler panic inside the handler's future and in its synchronous part (alone, and 12-20 of them in a row), a frame of Grouped AVPs nested 131 000 deep, a peer that resets the connection while the handler is still preparing its answer so that the write fails) alone with 3 well-behaved raw-socket clients, for plain TCP and TLS listeners, plus random "
+                "garbage at setup, reset, reset in mid-frame, handler panic inside the handler's future and in its synchronous part, with a literal and with a formatted message and from unwrap() (alone, and 12-20 of them in a row), a frame of Grouped AVPs nested 131 000 deep, a peer that resets the connection while the handler is still preparing its answer so that the write fails) alone with 3 well-behaved raw-socket clients, for plain TCP and TLS listeners, plus random "
                 "combinations of 1-3 faulty peers with 1-4 good clients; 5 and 9 simultaneous peers stuck in connection setup; 72 peers in a row that announce a 1 MiB frame and leave in the middle of it; half of the good clients are open before the faults are injected, half open afterwards; "
                 "multi-threaded runtime, real time; every answer compared octet for octet with the handler's answer to that client's own request (a misrouted answer "
                 "carries another client's Session-Id); deadline 3 s per step")
